@@ -40,16 +40,22 @@ type Listpack struct {
 	data        []byte //
 	p           uint32 //
 	numBytes    uint32 // 4 byte, the number of bytes
-	numElements uint16 // 2 byte, the number of Elements
+	numElements uint32 // the number of Elements (2 byte header field, or counted)
 }
+
+// the header field holds the number of elements only up to 65534 (redis, listpack.h:LP_HDR_NUMELE_UNKNOWN)
+const lpNumElementsUnknown = 65535
 
 func NewListpack(data []byte) *Listpack {
 	lp := new(Listpack)
 
 	lp.data = data
 	lp.numBytes = binary.LittleEndian.Uint32(data[:4])
-	lp.numElements = binary.LittleEndian.Uint16(data[4:6])
+	lp.numElements = uint32(binary.LittleEndian.Uint16(data[4:6]))
 	lp.p = 4 + 2
+	if lp.numElements == lpNumElementsUnknown {
+		lp.numElements = lp.countElements()
+	}
 
 	return lp
 }
@@ -146,8 +152,20 @@ func (lp *Listpack) NextInteger() int64 {
 	return ret
 }
 
-func (lp *Listpack) NumElements() uint16 {
+func (lp *Listpack) NumElements() uint32 {
 	return lp.numElements
+}
+
+// countElements walks the entries up to the end marker, redis, listpack.c:lpLength
+func (lp *Listpack) countElements() uint32 {
+	start := lp.p
+	count := uint32(0)
+	for lp.data[lp.p] != 0xFF {
+		lp.Next()
+		count++
+	}
+	lp.p = start
+	return count
 }
 
 /* the function just returns the length(byte) of `backlen`. */
